@@ -340,8 +340,49 @@ def extract():
                 site_key=byval[site_id][0], ignored_constants=ignored, hashes=_hashes())
 
 
+def _value_objects():
+    """Are the value objects a slice hands out private to the read?  Two VMs with textually identical capacities on a real
+    topology; the object read from one of them (attribute, get_property, get_sliver) is changed in place and NOT written
+    back: every later read of either node - and the collector - must still give the stored size."""
+    try:
+        from fim.user.topology import ExperimentTopology
+        from fim.slivers.capacities_labels import Capacities
+        m, cls = _load()
+        t = ExperimentTopology()
+        try:
+            size = (32, 128, 500)
+            els = [t.add_node(name="probe-%s" % k, site=PROBE_SITE, capacities=Capacities(core=size[0], ram=size[1], disk=size[2]))
+                   for k in ("a", "b")]
+            reads = (lambda n: n.capacities, lambda n: n.get_property("capacities"), lambda n: n.get_sliver().capacities)
+            fresh = True
+            for i, rd in enumerate(reads):
+                c = rd(els[0])
+                c.core, c.ram, c.disk = 1 + i, 2 + i, 3 + i
+                for n in els:
+                    for rd2 in reads:
+                        c2 = rd2(n)
+                        if (c2.core, c2.ram, c2.disk) != size:
+                            fresh = False
+                az = cls()
+                az.collect_resource_attributes(source=t)
+                if sorted(sum((list(v) for k, v in az._attributes.items() if v and all(isinstance(x, int) for x in v)), [])) \
+                        != sorted(size * 2):
+                    fresh = False
+            return fresh
+        finally:
+            try:
+                t.graph_model.delete_graph()
+            except Exception:
+                pass
+    except ExtractionError:
+        raise
+    except Exception as e:
+        raise ExtractionError("probe 'value objects of two equally sized nodes' raised %s: %s" % (type(e).__name__, e))
+
+
 def generate():
     x = extract()
+    x["reads_fresh"] = _value_objects()
     order = x["order"]
     b = []
     b.append("/-- attribute-id constants of %s, in source order -/" % CLS)
@@ -361,6 +402,9 @@ def generate():
     b.append("def switchType : String := %s\n" % lean_str(x["switch"][1]))
     b.append("/-- CategoryId literals of transform_to_pdp_request, in order -/")
     b.append("def categories : List String := " + lean_list(lean_str(c) for c in x["cats"]) + "\n")
+    b.append("/-- behavioural probe on a real topology: an object read from an element (attribute, get_property, get_sliver) is "
+             "private to that read - changing it in place changes no later read of any element -/")
+    b.append("def readsFresh : Bool := %s\n" % ("true" if x["reads_fresh"] else "false"))
     if x["type_key"] != "RESOURCE_TYPE" or x["site_key"] != "RESOURCE_SITE":
         # Model/Authz.lean names these two constructors
         raise ExtractionError("the resource-type / common site attributes are %s / %s, the model names RESOURCE_TYPE / RESOURCE_SITE"
@@ -368,4 +412,4 @@ def generate():
     changed = emit("Authz", "\n".join(b))
     return {"keys": len(order), "rows": len(x["rows"]), "lut": x["lut"], "categories": len(x["cats"]),
             "ignored_constants": x["ignored_constants"], "span_hashes": x["hashes"], "changed": changed,
-            "probes": {"port_pairs": len(PORT_PROBES) ** 2}}
+            "probes": {"port_pairs": len(PORT_PROBES) ** 2, "reads_fresh": x["reads_fresh"]}}
